@@ -20,6 +20,11 @@ vars == <<i, bad, n>>
 \* of the count and of the limit, whose counter only grows, and which raises the limit
 \* error only above the limit.
 Lookahead == 4
+\* Memory: the bytes allocated by a call on a multi-megabyte input (alloc, measured by the
+\* harness around the call; 0 = not measured) stay within a base plus a per-token allowance of
+\* the limit: they do not follow the size of the input.
+AllocBase == 1048576
+AllocPerToken == 4096
 
 Fold(c, toks) ==
   LET f(a, e) ==
@@ -70,6 +75,8 @@ SingleVerdict(c) ==
      \* (an input that does not parse anyway may end in the limit error instead of its syntax error when
      \* the parser consumes the end-of-input token while recovering: the statement only says it fails)
      ELSE IF c.ok0 /\ fits /\ a.hit THEN "limit check fired although the input parses and fits"
+     ELSE IF c.limit # 0 /\ c.alloc > AllocBase + AllocPerToken * c.limit
+          THEN "memory allocated under the limit follows the input size: " \o ToString(c.alloc) \o " bytes under limit " \o ToString(c.limit)
      ELSE "ok"
 
 Verdict(c) == IF c.multi THEN MultiVerdict(c) ELSE SingleVerdict(c)
